@@ -599,45 +599,72 @@ void init()
   };
 }
 
-// ---- 128-bit oracles for the full 16-bit squares (selfcheck) -----------------------------------
-std::string oracle(std::string const &f, i128 a, i128 b)
+// ---- the full 16-bit squares (selfcheck): the real function against an oracle in wider arithmetic, compared as numbers
+// (no strings in the inner loop: 2^32 evaluations per function).  An optional result is encoded as value, or `none_code`.
+constexpr long long none_code = 1LL << 40;
+
+template <typename T>
+long long enc(T const v) { return static_cast<long long>(v); }
+template <typename T>
+long long enc(fcppt::optional::object<T> const &o) { return o.has_value() ? static_cast<long long>(o.get_unsafe()) : none_code; }
+
+long long floor_div(long long const x, long long const y)
 {
-  if (f == "diff_u16" || f == "diff_i16")
-  {
-    i128 const d = a < b ? b - a : a - b;
-    // result converted back to the 16-bit type (modular)
-    if (f == "diff_u16") return str(d & 0xFFFF);
-    return str(static_cast<i128>(static_cast<std::int16_t>(static_cast<std::uint16_t>(d & 0xFFFF))));
-  }
-  if (f == "mod_u16")
-    return b == 0 ? "none" : "some " + str(a % b);
-  if (f == "truncation_check_i8_i16_pairs") return "";
-  return "?";
+  long long const q = x / y;
+  return (x % y != 0 && ((x < 0) != (y < 0))) ? q - 1 : q;
 }
 
-// rows [alo, ahi] of the square (all second operands); the full square is split over several lines so that no single line
-// needs minutes of CPU time
-std::string selfcheck(std::string const &f, i128 expect, i128 alo, i128 ahi)
+template <typename T, typename Impl, typename Oracle>
+std::string selfcheck_rows(i128 const alo, i128 const ahi, Impl const impl, Oracle const oracle)
 {
-  auto const it = table.find(f);
-  if (it == table.end())
-    return "bad-op";
-  bool const sgn = f.find("_i16") != std::string::npos;
-  i128 const l = sgn ? -32768 : 0, h = sgn ? 32767 : 65535;
+  long long const l = static_cast<long long>(lo<T>), h = static_cast<long long>(hi<T>);
   if (alo < l || ahi > h)
     return "bad-op";
-  i128 n = 0;
-  for (i128 a = alo; a <= ahi; ++a)
-    for (i128 b = l; b <= h; ++b)
+  long long n = 0;
+  for (long long a = static_cast<long long>(alo); a <= static_cast<long long>(ahi); ++a)
+    for (long long b = l; b <= h; ++b)
     {
-      std::string const got = it->second(a, b, 0);
-      std::string const want = oracle(f, a, b);
+      long long const got = enc(impl(static_cast<T>(a), static_cast<T>(b)));
+      long long const want = oracle(a, b);
       if (got != want)
-        return "bad " + str(a) + " " + str(b) + " got=" + got + " want=" + want;
+        return "bad " + str(a) + " " + str(b) + " got=" + str(got) + " want=" + str(want);
       ++n;
     }
-  (void)expect;
   return "ok " + str(n);
+}
+
+// rows [alo, ahi] of the square (all second operands); the full square is split over several lines
+std::string selfcheck(std::string const &f, i128 const alo, i128 const ahi)
+{
+  using u16 = std::uint16_t;
+  using i16 = std::int16_t;
+  auto const absdiff = [](long long a, long long b) { return a < b ? b - a : a - b; };
+  if (f == "diff_u16")
+    return selfcheck_rows<u16>(alo, ahi, [](u16 a, u16 b) { return fcppt::math::diff<u16>(a, b); },
+                               [&](long long a, long long b) { return absdiff(a, b) & 0xFFFF; });
+  if (f == "diff_i16")   // |a - b| can be 65535: converted back to int16_t (modular)
+    return selfcheck_rows<i16>(alo, ahi, [](i16 a, i16 b) { return fcppt::math::diff<i16>(a, b); },
+                               [&](long long a, long long b) { long long const d = absdiff(a, b) & 0xFFFF; return d >= 32768 ? d - 65536 : d; });
+  if (f == "mod_u16")
+    return selfcheck_rows<u16>(alo, ahi, [](u16 a, u16 b) { return fcppt::math::mod<u16>(a, b); },
+                               [](long long a, long long b) { return b == 0 ? none_code : a % b; });
+  if (f == "bit_test_u16")
+    return selfcheck_rows<u16>(alo, ahi, [](u16 a, u16 b) { return fcppt::bit::test(a, fcppt::bit::mask<u16>{b}); },
+                               [](long long a, long long b) { return static_cast<long long>((a & b) != 0); });
+  if (f == "div_u16")
+    return selfcheck_rows<u16>(alo, ahi, [](u16 a, u16 b) { return fcppt::math::div(a, b); },
+                               [](long long a, long long b) { return b == 0 ? none_code : a / b; });
+  if (f == "div_i16")    // computed in int: -32768 / -1 = 32768 is representable there
+    return selfcheck_rows<i16>(alo, ahi, [](i16 a, i16 b) { return fcppt::math::div(a, b); },
+                               [](long long a, long long b) { return b == 0 ? none_code : a / b; });
+  if (f == "ceil_div_signed_i16")   // the ceiling as minus the floor of the negated quotient; 32768 wraps to -32768
+    return selfcheck_rows<i16>(alo, ahi, [](i16 a, i16 b) { return fcppt::math::ceil_div_signed<i16>(a, b); },
+                               [](long long a, long long b) {
+                                 if (b == 0) return none_code;
+                                 long long const c = -floor_div(-a, b);
+                                 return c > 32767 ? c - 65536 : c;
+                               });
+  return "bad-op";
 }
 
 std::vector<i128> ilist(std::string const &s)
@@ -732,10 +759,10 @@ std::string handle(std::vector<std::string> const &t)
   if (t[0] == "selfcheck" && t.size() == 3)
   {
     bool const sgn = t[1].find("_i16") != std::string::npos;
-    return selfcheck(t[1], parse(t[2]), sgn ? -32768 : 0, sgn ? 32767 : 65535);
+    return selfcheck(t[1], sgn ? -32768 : 0, sgn ? 32767 : 65535);
   }
   if (t[0] == "selfcheck" && t.size() == 4)
-    return selfcheck(t[1], 0, parse(t[2]), parse(t[3]));
+    return selfcheck(t[1], parse(t[2]), parse(t[3]));
   auto const it = table.find(t[1]);
   if (it == table.end())
     return "bad-op";
